@@ -52,6 +52,9 @@ struct Sc {
     /// the self-stopping subscriber is the ONLY one at first: the port runs empty when it goes, and the late
     /// subscriber arrives into an empty port while the forwarding machinery is still dropping the dead one
     solo: bool,
+    /// S1 (from the start) and S2 (late, one publication after its first subscription) subscribe a second
+    /// time with another converter (odd values, + 5000): the two subscriptions of one actor are independent
+    twice: bool,
 }
 
 fn body(sc: Sc, v2: bool) -> vsched::Body {
@@ -81,6 +84,9 @@ fn body(sc: Sc, v2: bool) -> vsched::Body {
             } else {
                 None
             };
+            if sc.twice {
+                port.subscribe(s1.clone(), |v| if v % 2 == 1 { Some(v + 5000) } else { None });
+            }
             if !sc.solo {
                 port.subscribe(s1.clone(), Some);
                 port.subscribe(s3.clone(), |v| if v % 2 == 1 { None } else { Some(v + 1000) });
@@ -96,6 +102,9 @@ fn body(sc: Sc, v2: bool) -> vsched::Body {
                 for i in 0..sc.n {
                     if i == sc.late_at {
                         p2.subscribe(s2.clone(), Some);
+                    }
+                    if sc.twice && i == sc.late_at + 1 {
+                        p2.subscribe(s2.clone(), |v| if v % 2 == 1 { Some(v + 5000) } else { None });
                     }
                     p2.send(i);
                     if sc.publisher_yields {
@@ -126,11 +135,19 @@ fn body(sc: Sc, v2: bool) -> vsched::Body {
             };
             // without lag nothing may be skipped: the default port buffers 10, streams of <= 10 cannot lag
             let no_lag = v2 || sc.n <= 10;
-            let g1 = l1.lock().unwrap().clone();
+            // second subscriptions (values + 5000) are judged separately from the first ones
+            let second = |l: &L| -> Vec<u32> { l.lock().unwrap().iter().copied().filter(|v| *v >= 5000).collect() };
+            if sc.twice {
+                let want1: Vec<u32> = published.iter().copied().filter(|v| v % 2 == 1).map(|v| v + 5000).collect();
+                check("S1's second subscription (odd values)", &second(&l1), &want1, no_lag, &mut bad);
+                let want2: Vec<u32> = published.iter().copied().filter(|v| v % 2 == 1 && *v > sc.late_at).map(|v| v + 5000).collect();
+                check("S2's second subscription (late, odd values)", &second(&l2), &want2, no_lag, &mut bad);
+            }
+            let g1: Vec<u32> = l1.lock().unwrap().iter().copied().filter(|v| *v < 5000).collect();
             if !sc.solo {
                 check("S1 (subscribed from the start)", &g1, &published, no_lag, &mut bad);
             }
-            let g2 = l2.lock().unwrap().clone();
+            let g2: Vec<u32> = l2.lock().unwrap().iter().copied().filter(|v| *v < 5000).collect();
             let want2: Vec<u32> = published.iter().copied().filter(|v| *v >= sc.late_at).collect();
             check("S2 (late subscriber)", &g2, &want2, no_lag, &mut bad);
             let g3 = l3.lock().unwrap().clone();
@@ -193,29 +210,32 @@ pub fn plan(tier: &str) -> Plan {
     let bound = if thorough { 3 } else { 2 };
     let mut units = Vec::new();
     let mut scs = vec![
-        Sc { n: 6, late_at: 0, stop_after: 1, slow: false, publisher_yields: true, instant: false, solo: false },
-        Sc { n: 6, late_at: 2, stop_after: 3, slow: false, publisher_yields: true, instant: false, solo: false },
-        Sc { n: 6, late_at: 5, stop_after: 3, slow: true, publisher_yields: false, instant: false, solo: false },
-        Sc { n: 6, late_at: 6, stop_after: 1, slow: true, publisher_yields: true, instant: false, solo: false },
+        Sc { n: 6, late_at: 0, stop_after: 1, slow: false, publisher_yields: true, instant: false, solo: false, twice: false },
+        Sc { n: 6, late_at: 2, stop_after: 3, slow: false, publisher_yields: true, instant: false, solo: false, twice: false },
+        Sc { n: 6, late_at: 5, stop_after: 3, slow: true, publisher_yields: false, instant: false, solo: false, twice: false },
+        Sc { n: 6, late_at: 6, stop_after: 1, slow: true, publisher_yields: true, instant: false, solo: false, twice: false },
     ];
     if thorough {
         for late_at in [1, 3, 4] {
             for stop_after in [2, 5] {
-                scs.push(Sc { n: 6, late_at, stop_after, slow: false, publisher_yields: late_at % 2 == 0, instant: stop_after == 5, solo: false });
+                scs.push(Sc { n: 6, late_at, stop_after, slow: false, publisher_yields: late_at % 2 == 0, instant: stop_after == 5, solo: false, twice: false });
             }
         }
     }
-    scs.push(Sc { n: 4, late_at: 1, stop_after: 2, slow: false, publisher_yields: false, instant: true, solo: false });
-    scs.push(Sc { n: 4, late_at: 4, stop_after: 1, slow: false, publisher_yields: true, instant: true, solo: false });
+    scs.push(Sc { n: 4, late_at: 1, stop_after: 2, slow: false, publisher_yields: false, instant: true, solo: false, twice: false });
+    scs.push(Sc { n: 4, late_at: 4, stop_after: 1, slow: false, publisher_yields: true, instant: true, solo: false, twice: false });
     // the only subscriber stops, the port runs empty, a late subscriber arrives
-    scs.push(Sc { n: 6, late_at: 3, stop_after: 1, slow: false, publisher_yields: true, instant: false, solo: true });
-    scs.push(Sc { n: 6, late_at: 2, stop_after: 1, slow: false, publisher_yields: false, instant: false, solo: true });
-    scs.push(Sc { n: 6, late_at: 4, stop_after: 2, slow: false, publisher_yields: true, instant: false, solo: true });
+    scs.push(Sc { n: 6, late_at: 3, stop_after: 1, slow: false, publisher_yields: true, instant: false, solo: true, twice: false });
+    scs.push(Sc { n: 6, late_at: 2, stop_after: 1, slow: false, publisher_yields: false, instant: false, solo: true, twice: false });
+    scs.push(Sc { n: 6, late_at: 4, stop_after: 2, slow: false, publisher_yields: true, instant: false, solo: true, twice: false });
+    // one actor, two subscriptions with different converters
+    scs.push(Sc { n: 6, late_at: 2, stop_after: 3, slow: false, publisher_yields: true, instant: false, solo: false, twice: true });
+    scs.push(Sc { n: 6, late_at: 3, stop_after: 1, slow: false, publisher_yields: false, instant: false, solo: false, twice: true });
     // a long stream: subscribers of the default port lag behind (buffer 10)
-    scs.push(Sc { n: 25, late_at: 12, stop_after: 4, slow: true, publisher_yields: false, instant: false, solo: false });
+    scs.push(Sc { n: 25, late_at: 12, stop_after: 4, slow: true, publisher_yields: false, instant: false, solo: false, twice: false });
     for build_v2 in [false, true] {
         for sc in &scs {
-            let name = format!("{}/n{}-late{}-stop{}-slow{}-yield{}{}", if build_v2 { "v2" } else { "v1" }, sc.n, sc.late_at, sc.stop_after, sc.slow, sc.publisher_yields, if sc.instant { "-instant" } else if sc.solo { "-solo" } else { "" });
+            let name = format!("{}/n{}-late{}-stop{}-slow{}-yield{}{}", if build_v2 { "v2" } else { "v1" }, sc.n, sc.late_at, sc.stop_after, sc.slow, sc.publisher_yields, if sc.instant { "-instant" } else if sc.solo { "-solo" } else if sc.twice { "-twice" } else { "" });
             let b: vsched::Body = if build_v2 == V2 {
                 body(*sc, build_v2)
             } else {
